@@ -198,6 +198,12 @@ def check_consumer(ctx, F, parent, acc, cfn):
     if len(loc) != 1:
         raise AnchorLost("accumulator %s not found as a unique local of %s" % (acc, pfn))
     l = loc[0]
+    if re.search(r"sync::Mutex<std::collections::BTreeMap<", parent.lty(l)):
+        # a map ordered by its key: whatever order the workers insert in, it is walked in key order (the rule on the insertions,
+        # check_sort_key, asks that the key is the parallel iterator's own item key, so that no two workers insert the same one)
+        ctx.ob(R, "accumulator|%s|%s" % (pfn, acc), True, "%s is a BTreeMap: completion order is normalised to key order by the container" % acc, parent.where())
+        ctx.__dict__.setdefault("_sort_field", {})[acc] = "btree-key"
+        return True
     # into_inner(acc) -> unwrap -> value
     def root(o):
         pl = op_place(parent.resolve_copy(o))
@@ -289,7 +295,7 @@ def check_sort_key(ctx, F, cb, acc, cfn):
     parallel iterator's own item key (unique by construction of the map / index), not a value parsed from the input."""
     R = "R-EFF"
     param = cb.argc            # closures: the last argument is the item
-    pushes = [c for c in cb.calls if re.search(r"Vec::<.*>::(push|extend|insert)$", c.fn or "") and acc in cb.oname(c.args[0], 3)]
+    pushes = [c for c in cb.calls if re.search(r"Vec::<.*>::(push|extend|insert)$|BTreeMap::<.*>::insert$", c.fn or "") and acc in cb.oname(c.args[0], 3)]
     if not pushes:
         ctx.finding(R, "sort-key-unique|%s|%s" % (cfn, acc), "no push into %s found in the parallel closure" % acc, cb.where())
         return
@@ -297,7 +303,9 @@ def check_sort_key(ctx, F, cb, acc, cfn):
         d = cb.def_rv(c.args[1])
         tag = None
         fld = getattr(ctx, "_sort_field", {}).get(acc, 0)
-        if d and d[2] == "rv" and d[3]["k"] == "agg" and d[3]["kind"].get("a") in ("tuple", "adt") and len(d[3]["ops"]) > fld:
+        if fld == "btree-key":
+            tag = c.args[1] if re.search(r"BTreeMap::<.*>::insert$", c.fn or "") and len(c.args) == 3 else None
+        elif d and d[2] == "rv" and d[3]["k"] == "agg" and d[3]["kind"].get("a") in ("tuple", "adt") and len(d[3]["ops"]) > fld:
             tag = d[3]["ops"][fld]
         ok = False
         how = "?"
